@@ -45,6 +45,17 @@ def build(kind):
         return 1, cp, heat
     if kind == 'pfasst':
         return 3, dict(cp, predict_type='pfasst_burnin'), heat
+    if kind in ('adapt', 'adaptres'):
+        # error- / residual-based step-size control with restarts on the van der Pol oscillator, 2 steps per block
+        from pySDC.implementations.problem_classes.Van_der_Pol_implicit import vanderpol
+        from pySDC.implementations.convergence_controller_classes.adaptivity import Adaptivity, AdaptivityResidual
+        from pySDC.implementations.hooks.log_step_size import LogStepSize
+        from pySDC.implementations.hooks.log_restarts import LogRestarts
+        vdp = dict(problem_class=vanderpol, problem_params=dict(mu=5.0, newton_tol=1e-10, newton_maxiter=99, u0=np.array([2.0, 0.0])),
+                   sweeper_class=generic_implicit, sweeper_params=dict(num_nodes=3, quad_type='RADAU-RIGHT', QI='LU'),
+                   level_params=dict(dt=2 * DT, restol=-1.0 if kind == 'adapt' else 1e-8), step_params=dict(maxiter=3 if kind == 'adapt' else 12))
+        vdp['convergence_controllers'] = {Adaptivity: dict(e_tol=3e-5)} if kind == 'adapt' else {AdaptivityResidual: dict(e_tol=1e-4, max_restarts=3)}
+        return 2, dict(cp, mssdc_jac=False, hook_class=[LogStepSize, LogRestarts]), vdp
     raise KeyError(kind)
 
 
